@@ -157,7 +157,7 @@ func (u *Unit) havocAll(st *State, why string) {
 		}
 		km := keptMap{ref: sc.T, mt: v.Type()}
 		km.dom = Select(u.viewGet(view, mapDomFam(v.Type()), ArrSort(SInt, ArrSort(ks, SBool))), sc.T)
-		for _, c := range comps(mt.Elem()) {
+		for _, c := range mapComps(mt.Elem()) {
 			km.vals = append(km.vals, Select(u.viewGet(view, mapValFam(v.Type())+c[0], ArrSort(SInt, ArrSort(ks, c[1]))), sc.T))
 		}
 		keepMaps = append(keepMaps, km)
@@ -176,7 +176,7 @@ func (u *Unit) havocAll(st *State, why string) {
 			ks := scalarSort(mt.Key())
 			df := mapDomFam(km.mt)
 			u.heapSet(st, df, Store(u.heapGet(st, df, ArrSort(SInt, ArrSort(ks, SBool))), km.ref, km.dom))
-			for i, c := range comps(mt.Elem()) {
+			for i, c := range mapComps(mt.Elem()) {
 				vf := mapValFam(km.mt) + c[0]
 				u.heapSet(st, vf, Store(u.heapGet(st, vf, ArrSort(SInt, ArrSort(ks, c[1]))), km.ref, km.vals[i]))
 			}
